@@ -71,8 +71,17 @@ func (s Server) Handle(data []byte) ([]byte, error) {
 		Type:  wire.Reply,
 	}
 
-	response.Value, err = s.h.Handle(request.Name, request.Value)
-	if err != nil {
+	if request.Type != wire.Call && request.Type != wire.OneWay {
+		// Only requests are handed to the handler: a reply or an exception
+		// that arrives here was not meant for a server.
+		err = fmt.Errorf("unexpected envelope type %v for %q: only Call and OneWay are requests",
+			request.Type, request.Name)
+		response.Type = wire.Exception
+		response.Value, err = tappExc(err, exception.ExceptionTypeInvalidMessageType)
+		if err != nil {
+			return nil, err
+		}
+	} else if response.Value, err = s.h.Handle(request.Name, request.Value); err != nil {
 		response.Type = wire.Exception
 		switch err.(type) {
 		case ErrUnknownMethod:
